@@ -119,10 +119,13 @@ def _eval_where(expr, inputs):
   return eval(expr, {'__builtins__': {'len': len, 'int': int}}, env)
 
 
-def run_task(prop, obl_index, case_index, stack, deadline):
+def run_task(prop, obl_index, case_index, stack, deadline, slice_s=None):
   """worker: explore (part of) one case. Returns a result dict (always picklable)."""
   mod = importlib.import_module('props.' + prop)
-  obl = mod.obligations(os.environ.get('VERIF_TIER', 'quick'))[obl_index]
+  obls_ = mod.obligations(os.environ.get('VERIF_TIER', 'quick'))
+  only_ = os.environ.get('VERIF_ONLY')
+  if only_: obls_ = [o for o in obls_ if o.name in only_.split(',')]
+  obl = obls_[obl_index]
   case = obl.cases[case_index]
   core.set_width(obl.width); core.set_mode(obl.mode)
   eng = Engine(solver_timeout_ms=obl.solver_timeout_ms, max_decisions=obl.max_decisions,
@@ -187,7 +190,7 @@ def run_task(prop, obl_index, case_index, stack, deadline):
 
   try:
     left = eng.explore(fn, on_path, stack=stack, split_at=obl.split, deadline=deadline,
-                       max_paths=obl.max_paths)
+                       max_paths=obl.max_paths, slice_until=(time.time() + slice_s) if slice_s else None)
     res['leftover'] = left
   except Inconclusive as e:
     res['status'] = 'inconclusive'; res['reason'] = str(e)
@@ -247,13 +250,14 @@ def _spawn_replay(prop, path):
 
 
 # ------------------------------------------------------------------------------------------------
-def run_property(prop, tier, seed=0, budget_s=None, jobs=None):
+def run_property(prop, tier, seed=0, budget_s=None, jobs=None, only=None, slice_s=3.0):
   t0 = time.time()
   os.environ['VERIF_TIER'] = tier
   sys.path.insert(0, VERIF)
   loader.install(rewrite=True)
   mod = importlib.import_module('props.' + prop)
   obls = mod.obligations(tier)
+  if only: obls = [o for o in obls if o.name in only]
   if hasattr(mod, 'preload'): mod.preload()
   budget_s = budget_s or getattr(mod, 'BUDGET', {}).get(tier, 600 if tier == 'quick' else 3600)
   deadline = t0 + budget_s
@@ -269,7 +273,7 @@ def run_property(prop, tier, seed=0, budget_s=None, jobs=None):
     pending = set()
     for oi, o in enumerate(obls):
       for ci in range(len(o.cases)):
-        pending.add(ex.submit(run_task, prop, oi, ci, None, deadline))
+        pending.add(ex.submit(run_task, prop, oi, ci, None, deadline, slice_s))
     while pending:
       done, pending = cf.wait(pending, return_when=cf.FIRST_COMPLETED)
       for fut in done:
@@ -295,8 +299,11 @@ def run_property(prop, tier, seed=0, budget_s=None, jobs=None):
           inconclusive.append((r['obl'], r['case_index'], r.get('reason'), r.get('budget_model')))
         elif r['status'] == 'engine-error':
           a['status'] = 'engine-error'; engine_errors.append(r.get('reason'))
-        for pre in r['leftover']:
-          pending.add(ex.submit(run_task, prop, r['obl_index'], r['case_index'], [pre], deadline))
+        left = r['leftover']
+        # hand out subtrees one by one while workers are idle, else in chunks (less re-execution overhead)
+        chunk = 1 if len(pending) < 2 * jobs else max(1, len(left) // 4)
+        for i in range(0, len(left), chunk):
+          pending.add(ex.submit(run_task, prop, r['obl_index'], r['case_index'], left[i:i + chunk], deadline, slice_s))
   # ---- witnesses (vacuity guard)
   missing_w = []
   for o in obls:
